@@ -863,12 +863,227 @@ class Normaliser:
                         process(sub)
         process(node.body)
 
+    # ---- per-item tables filled by one loop and consumed by the next ------------------------------------------------------
+    def fuse_item_tables(self, node):
+        """T = [] ; for P in S: <assigns>; T.append(E)        ; for P2, d in zip(S, T): BODY   ->  for P2 in S: <assigns>; d = E; BODY
+        T = {} ; for P in S: <assigns>; T[KE] = E           ; for P2 in S: .. T[KE] ..       ->  for P2 in S: <assigns>; t = E; .. t ..
+        The list form pairs by position and is always the item's own value.  The dict form is the item's own value only when the key
+        determines it (every loop variable E depends on is named by an injective key); otherwise a later item with the same key has
+        overwritten it, which is recorded in self.memo_issues.  Loop 1 may only assign names and fill T; what it reads may not be
+        written by loop 2 (the computation is moved across loop 2's earlier iterations)."""
+        def names(e):
+            return {x.id for x in ast.walk(e) if isinstance(x, ast.Name)}
+
+        def root(t):
+            while isinstance(t, (ast.Subscript, ast.Attribute)):
+                if isinstance(t, ast.Attribute) and isinstance(t.value, ast.Name) and t.value.id == 'self':
+                    return 'self.' + t.attr
+                t = t.value
+            return t.id if isinstance(t, ast.Name) else None
+
+        def mentions(st, T):
+            return any(isinstance(n, (ast.Name, ast.Attribute)) and U(n) == T for n in ast.walk(st))
+
+        def written_roots(stmts):
+            out = set()
+            for st in stmts:
+                for n in ast.walk(st):
+                    if isinstance(n, ast.Assign):
+                        for t in n.targets:
+                            for e in (t.elts if isinstance(t, (ast.Tuple, ast.List)) else [t]):
+                                out.add(root(e))
+                    elif isinstance(n, (ast.AugAssign, ast.AnnAssign)):
+                        out.add(root(n.target))
+                    elif isinstance(n, ast.For):
+                        out |= set(target_names(n.target))
+                    elif isinstance(n, ast.Call) and isinstance(n.func, ast.Attribute) and \
+                            n.func.attr in ('append', 'extend', 'add', 'update', 'pop', 'clear', 'remove', 'insert', 'setdefault', 'sort'):
+                        out.add(root(n.func.value))
+            return out
+
+        def read_roots(stmts):
+            out = set()
+            for st in stmts:
+                for n in ast.walk(st):
+                    if isinstance(n, ast.Name) and isinstance(n.ctx, ast.Load):
+                        out.add(n.id)
+                    elif isinstance(n, ast.Attribute) and isinstance(n.value, ast.Name) and n.value.id == 'self':
+                        out.add('self.' + n.attr)
+            return out
+
+        def process(body):
+            i = 0
+            while i < len(body):
+                st = body[i]
+                for fld in ('body', 'orelse', 'finalbody'):
+                    sub = getattr(st, fld, None)
+                    if isinstance(sub, list) and sub and isinstance(sub[0], ast.stmt):
+                        process(sub)
+                i += 1
+                if not (isinstance(st, ast.Assign) and len(st.targets) == 1 and isinstance(st.targets[0], (ast.Name, ast.Attribute))):
+                    continue
+                vt = U(st.value).replace(' ', '')
+                if vt not in ('[]', 'list()', '{}', 'dict()'):
+                    continue
+                is_list = vt in ('[]', 'list()')
+                T = U(st.targets[0])
+                idx = body.index(st)
+                users = [k for k in range(idx + 1, len(body)) if mentions(body[k], T)]
+                if len(users) < 2 or users[1] != users[0] + 1:
+                    continue
+                l1, l2 = body[users[0]], body[users[1]]
+                if not (isinstance(l1, ast.For) and isinstance(l2, ast.For)) or l1.orelse or l2.orelse or not l1.body:
+                    continue
+                if any(isinstance(n, (ast.Break, ast.Continue, ast.Return, ast.For, ast.While, ast.If, ast.Try)) for b in l1.body for n in ast.walk(b)):
+                    continue
+                store = l1.body[-1]
+                pre = l1.body[:-1]
+                if not all(isinstance(a, ast.Assign) and all(isinstance(t, ast.Name) for t in a.targets) for a in pre):
+                    continue
+                if any(mentions(a, T) for a in pre):
+                    continue
+                if is_list:
+                    if not (isinstance(store, ast.Expr) and isinstance(store.value, ast.Call) and isinstance(store.value.func, ast.Attribute)
+                            and store.value.func.attr == 'append' and U(store.value.func.value) == T and len(store.value.args) == 1):
+                        continue
+                    KE, E = None, store.value.args[0]
+                    it = l2.iter
+                    if not (isinstance(it, ast.Call) and U(it.func) == 'zip' and len(it.args) == 2 and U(it.args[0]) == U(l1.iter)
+                            and U(it.args[1]) == T and isinstance(l2.target, ast.Tuple) and len(l2.target.elts) == 2
+                            and isinstance(l2.target.elts[1], ast.Name)):
+                        continue
+                    P2, d = l2.target.elts
+                    if any(mentions(b, T) for b in l2.body):
+                        continue
+                else:
+                    if not (isinstance(store, ast.Assign) and len(store.targets) == 1 and isinstance(store.targets[0], ast.Subscript)
+                            and U(store.targets[0].value) == T):
+                        continue
+                    KE, E = store.targets[0].slice, store.value
+                    if U(l2.iter) != U(l1.iter):
+                        continue
+                    P2, d = l2.target, None
+                if mentions(E, T):
+                    continue
+                # same shape of loop targets: rename loop-1 variables to loop-2's
+                def flat(t):
+                    if isinstance(t, ast.Name):
+                        return [t.id]
+                    if isinstance(t, (ast.Tuple, ast.List)):
+                        out = []
+                        for e in t.elts:
+                            f = flat(e)
+                            if f is None:
+                                return None
+                            out.append(f)
+                        return out
+                    return None
+                f1, f2 = flat(l1.target), flat(P2)
+
+                def zipnames(a, b, m):
+                    if isinstance(a, str) and isinstance(b, str):
+                        m[a] = b
+                        return True
+                    if isinstance(a, list) and isinstance(b, list) and len(a) == len(b):
+                        return all(zipnames(x, y, m) for x, y in zip(a, b))
+                    return False
+                ren = {}
+                if f1 is None or f2 is None or not zipnames(f1[0] if isinstance(l1.target, ast.Name) else f1,
+                                                            f2[0] if isinstance(P2, ast.Name) else f2, ren):
+                    continue
+                loopvars1 = set(ren)
+                locals1 = set()
+                for a in pre:
+                    for t in a.targets:
+                        locals1.add(t.id)
+                after = body[users[1] + 1:]
+                if any(nm in names(x) for x in after for nm in locals1 | loopvars1 if nm not in ren.values()):
+                    continue
+                # the moved computation may not read what loop 2 writes (nor may loop 2 rebind its own loop variables' sources)
+                w2 = written_roots(l2.body) - {None}
+                r1 = read_roots(l1.body) - loopvars1 - locals1
+                if (w2 & r1) - {T}:
+                    continue
+                if root(l1.iter) in w2 or any(v in w2 for v in ren.values()):
+                    continue
+                for nm in locals1:
+                    ren[nm] = self.fresh(nm)
+                mapping = {k: ast.Name(id=v, ctx=ast.Load()) for k, v in ren.items()}
+
+                def sub(e):
+                    class S(ast.NodeTransformer):
+                        def visit_Name(self, n):
+                            return ast.copy_location(ast.Name(id=ren[n.id], ctx=n.ctx), n) if n.id in ren else n
+                    return S().visit(clone(e))
+                if not is_list:
+                    # does the key determine the value?
+                    assigns = {}
+                    for a in pre:
+                        for t in a.targets:
+                            assigns.setdefault(t.id, set()).update(names(a.value))
+
+                    def closure(start):
+                        seen, todo = set(), list(start)
+                        while todo:
+                            x = todo.pop()
+                            if x in seen:
+                                continue
+                            seen.add(x)
+                            todo.extend(assigns.get(x, ()))
+                        return seen
+                    kdeps = closure(names(KE)) & loopvars1
+                    vdeps = closure(names(E)) & loopvars1
+                    if not (vdeps <= kdeps and self.injective_key(KE, {}, pre)):
+                        self.memo_issues.append((store, T, U(KE), sorted(vdeps - kdeps) if not vdeps <= kdeps else ['<key not injective>']))
+                        continue
+                    ktext = U(sub(KE))
+                    reads = [n for b in l2.body for n in ast.walk(b) if isinstance(n, (ast.Name, ast.Attribute)) and U(n) == T]
+                    good = [n for b in l2.body for n in ast.walk(b) if isinstance(n, ast.Subscript) and U(n.value) == T
+                            and isinstance(n.ctx, ast.Load) and U(n.slice) == ktext]
+                    if len(reads) != len(good):
+                        continue
+                    dname = self.fresh('item')
+
+                    class R(ast.NodeTransformer):
+                        def visit_Subscript(self, n):
+                            n = self.generic_visit(n)
+                            if U(n.value) == T and isinstance(n.ctx, ast.Load) and U(n.slice) == ktext:
+                                return ast.copy_location(ast.Name(id=dname, ctx=ast.Load()), n)
+                            return n
+                    l2.body = [R().visit(b) for b in l2.body]
+                else:
+                    dname = d.id
+                head = [ast.copy_location(ast.Assign(targets=[sub(t) for t in a.targets], value=sub(a.value)), a) for a in pre]
+                head.append(ast.copy_location(ast.Assign(targets=[ast.Name(id=dname, ctx=ast.Store())], value=sub(E)), store))
+                if isinstance(st.targets[0], ast.Attribute):
+                    # the table outlives the call: keep filling it
+                    if is_list:
+                        keep_ = ast.Expr(value=ast.Call(func=ast.Attribute(value=clone(st.targets[0]), attr='append', ctx=ast.Load()),
+                                                        args=[ast.Name(id=dname, ctx=ast.Load())], keywords=[]))
+                        keep_.value.func.value.ctx = ast.Load()
+                    else:
+                        tgt = ast.Subscript(value=clone(st.targets[0]), slice=sub(KE), ctx=ast.Store())
+                        tgt.value.ctx = ast.Load()
+                        keep_ = ast.Assign(targets=[tgt], value=ast.Name(id=dname, ctx=ast.Load()))
+                    head.append(ast.copy_location(keep_, store))
+                l2.target = P2
+                l2.iter = clone(l1.iter)
+                l2.body = head + l2.body
+                body.remove(l1)
+                if not isinstance(st.targets[0], ast.Attribute):
+                    body.remove(st)
+                for x in body:
+                    ast.fix_missing_locations(x)
+                i = 0
+        process(node.body)
+
     def run(self):
         node = clone(self.fi.node)
         self.memo_issues = []
         self.dememoise(node)
         node.body = self.block(node.body, {}, (self.fi.qualname,))
         self.dememoise(node)          # memo tables that came in with inlined helpers
+        self.fuse_item_tables(node)
         self.split_paths(node)
         ast.fix_missing_locations(node)
         for n in ast.walk(node):
